@@ -463,4 +463,199 @@ theorem toSL_render (O : Oracle) (sep : List Char) : (cs : List Cond) → wfL O 
     rw [e, renderMembers_cons2, joinStr_cons2, h1, ← e', h2]
 end
 
+
+/-! ### `Query.Print` writes a sentence -/
+
+def Query.sentence (q : Query) : Sentence :=
+  { gap := [' ']
+    pfx := wordOf (q.dbName ++ ':' :: q.dbKeyPrefix)
+    where_ := q.where_.map (toSN false)
+    orderby := if q.orderBy ≠ [] then some (wordOf q.orderBy) else none
+    limit := if q.limit > 0 then some (showInt q.limit) else none
+    offset := if q.offset > 0 then some (showInt q.offset) else none
+    strip := true }
+
+theorem notStr_head (x : List Char) : notStr x ≠ [] ∧ (notStr x).head? ≠ some '(' := by
+  unfold notStr
+  split
+  · simp
+  · rename_i h
+    cases x with
+    | nil => simp
+    | cons c r =>
+      simp only [List.head?_cons, Option.some.injEq, not_or] at h
+      by_cases hc : c = ' '
+      · subst hc; simp
+      · have e1 : (decide (c ≠ ' ')) = true := by simp [hc]
+        rw [List.takeWhile_cons]
+        simp only [e1, if_true, List.cons_append, List.head?_cons, Option.some.injEq, ne_eq, reduceCtorEq,
+          not_false_eq_true, true_and]
+        exact h.1
+
+theorem esc_head (key X : List Char) : esc key ++ X ≠ [] ∧ (esc key ++ X).head? ≠ some '(' := by
+  unfold esc
+  split
+  · simp
+  · rename_i h
+    simp only [not_or, Bool.not_eq_true] at h
+    cases key with
+    | nil => exact absurd rfl h.1
+    | cons c r =>
+      simp only [List.any_cons, Bool.or_eq_false_iff] at h
+      have : c ≠ '(' := by intro e; subst e; simp [isSpecial] at h
+      simp [this]
+
+def bodyOf (strip : Bool) : SCond → List Char
+  | .group isOr g p ng false kids =>
+    if strip then renderMembers (g ++ connective isOr ++ g) kids else (SCond.group isOr g p ng false kids).render
+  | c => c.render
+
+theorem renderWhere_eq (s : Sentence) :
+    s.renderWhere = match s.where_ with | none => [] | some c => s.gap ++ kwWhere ++ s.gap ++ bodyOf s.strip c := by
+  unfold Sentence.renderWhere
+  cases s.where_ with
+  | none => rfl
+  | some c =>
+    cases c with
+    | clause g k o n v => rfl
+    | group isOr g p ng neg kids => cases neg <;> rfl
+
+theorem printWhere_eq (O : Oracle) (c : Cond) (h : c.wf O = true) :
+    printWhere (some c) = [' '] ++ kwWhere ++ [' '] ++ bodyOf true (toSN false c) := by
+  have hr := toSN_render O false c h
+  simp only [Bool.false_eq_true, if_false] at hr
+  have plain : ∀ (c' : SCond), c'.render = condStr c → bodyOf true c' = c'.render →
+      condStr c ≠ [] ∧ (condStr c).head? ≠ some '(' →
+      printWhere (some c) = [' '] ++ kwWhere ++ [' '] ++ bodyOf true c' := by
+    intro c' h1 h2 h3
+    simp only [printWhere, h3.1, h3.2, if_false, h2, h1]
+    rfl
+  cases c with
+  | leaf key op v =>
+    refine plain _ hr rfl ?_
+    simp only [condStr, List.append_assoc]
+    exact esc_head key _
+  | bad e => simp [Cond.wf, Cond.wfN] at h
+  | not c0 =>
+    have hh : condStr (.not c0) ≠ [] ∧ (condStr (.not c0)).head? ≠ some '(' := by
+      simp only [condStr]; exact notStr_head _
+    simp only [Cond.wf, Cond.wfN, Bool.and_eq_true, Bool.not_eq_true'] at h
+    cases c0 with
+    | leaf key op v => exact plain _ hr rfl hh
+    | bad e => simp [Cond.wfN] at h
+    | not c1 => simp [Cond.wfN] at h
+    | and cs => exact plain _ hr rfl hh
+    | or cs => exact plain _ hr rfl hh
+  | and cs =>
+    simp only [Cond.wf, Cond.wfN, Bool.and_eq_true, decide_eq_true_eq] at h
+    have := toSL_render O [' ','a','n','d',' '] cs h.2
+    have hsep : [' '] ++ connective false ++ [' '] = [' ','a','n','d',' '] := rfl
+    simp only [toSN, bodyOf, if_true, hsep, this, printWhere, condStr]
+    simp [List.dropLast_concat, kwWhere]
+  | or cs =>
+    simp only [Cond.wf, Cond.wfN, Bool.and_eq_true, decide_eq_true_eq] at h
+    have := toSL_render O [' ','o','r',' '] cs h.2
+    have hsep : [' '] ++ connective true ++ [' '] = [' ','o','r',' '] := rfl
+    simp only [toSN, bodyOf, if_true, hsep, this, printWhere, condStr]
+    simp [List.dropLast_concat, kwWhere]
+
+theorem print_eq_render (O : Oracle) (q : Query) (h : q.wf O = true) : q.print = q.sentence.render := by
+  simp only [Query.wf, Bool.and_eq_true, decide_eq_true_eq] at h
+  obtain ⟨⟨⟨_, hw⟩, _⟩, _⟩ := h
+  obtain ⟨db, pk, w, ob, lim, off⟩ := q
+  simp only at hw
+  have hwhere : printWhere w = (Query.sentence ⟨db, pk, w, ob, lim, off⟩).renderWhere := by
+    rw [renderWhere_eq]
+    cases w with
+    | none => rfl
+    | some c =>
+      simp only [Query.sentence, Option.map_some]
+      exact printWhere_eq O c hw
+  simp only [Query.print, hwhere, Sentence.render]
+  simp only [Query.sentence, wordOf_render]
+  by_cases h1 : ob ≠ [] <;> by_cases h2 : lim > 0 <;> by_cases h3 : off > 0 <;>
+    simp [h1, h2, h3, wordOf_render, kwOrderby, kwLimit, kwOffset, kwQuery, List.append_assoc]
+
+theorem parseKey_split (db pk : List Char) (h : db.all (fun c => c != ':') = true) :
+    parseKey (db ++ ':' :: pk) = (db, pk) := by
+  induction db with
+  | nil => simp [parseKey]
+  | cons c r ih =>
+    simp only [List.all_cons, Bool.and_eq_true, bne_iff_ne, ne_eq] at h
+    simp [parseKey, h.1, ih h.2]
+
+theorem limit_text (l : Int) (h : l < 2 ^ 31) (hp : l > 0) : parseUint31 (showInt l) = some l.natAbs := by
+  have hn : ¬ l < 0 := by omega
+  have : l.natAbs < 2 ^ 31 := by omega
+  simp only [showInt, hn, if_false, parseUint31_showNat _ this]
+
+theorem limit_val (l : Int) (h : l < 2 ^ 31) (hp : l > 0) : (((parseUint31 (showInt l)).getD 0 : Nat) : Int) = l := by
+  rw [limit_text l h hp]
+  exact Int.natAbs_of_nonneg (by omega)
+
+theorem sentence_query (O : Oracle) (q : Query) (h : q.wf O = true) : q.sentence.query O = q.norm := by
+  simp only [Query.wf, Bool.and_eq_true, decide_eq_true_eq] at h
+  obtain ⟨⟨⟨hdb, hw⟩, hl⟩, ho⟩ := h
+  obtain ⟨db, pk, w, ob, lim, off⟩ := q
+  simp only at hdb hw hl ho
+  have hwh : (w.map (toSN false)).map (·.cond O) = w := by
+    cases w with
+    | none => rfl
+    | some c =>
+      have := toSN_cond O false c hw
+      simp only [Bool.false_eq_true, if_false] at this
+      simp [this]
+  simp only [Sentence.query, Query.sentence, Query.new, wordOf_text, parseKey_split db pk hdb, hwh, Query.norm]
+  by_cases hb : ob = [] <;> by_cases h1 : lim > 0 <;> by_cases h2 : off > 0 <;>
+    simp [hb, h1, h2, wordOf_text] <;>
+    (first
+      | exact ⟨limit_val lim hl h1, limit_val off ho h2⟩
+      | exact limit_val lim hl h1
+      | exact limit_val off ho h2)
+
+theorem sentence_wf (O : Oracle) (q : Query) (h : q.wf O = true) : q.sentence.wf = true := by
+  simp only [Query.wf, Bool.and_eq_true, decide_eq_true_eq] at h
+  obtain ⟨⟨⟨_, hw⟩, hl⟩, ho⟩ := h
+  obtain ⟨db, pk, w, ob, lim, off⟩ := q
+  simp only at hw hl ho
+  have hg : gapOK [' '] = true := by decide
+  have hwh : (match w.map (toSN false) with | none => true | some c => c.wf) = true := by
+    cases w with
+    | none => rfl
+    | some c => simpa using toSN_wf O false c hw
+  simp only [Sentence.wf, Query.sentence, wordOf_wf, hg, Bool.true_and, Bool.and_eq_true]
+  refine ⟨⟨⟨?_, ?_⟩, ?_⟩, ?_⟩
+  · cases w with
+    | none => rfl
+    | some c => simpa using toSN_wf O false c hw
+  · by_cases hb : ob = []
+    · simp [hb]
+    · simp [hb, wordOf_wf]
+  · by_cases h1 : lim > 0
+    · simp [h1, limit_text lim hl h1]
+    · simp [h1]
+  · by_cases h2 : off > 0
+    · simp [h2, limit_text off ho h2]
+    · simp [h2]
+
+mutual
+theorem wf_firstBad (O : Oracle) (neg : Bool) : (c : Cond) → Cond.wfN O neg c = true → firstBad c = none
+  | .leaf _ _ _, _ => rfl
+  | .bad _, h => by simp [Cond.wfN] at h
+  | .and cs, h => by
+    simp only [Cond.wfN, Bool.and_eq_true] at h
+    simpa [firstBad] using wfL_firstBad O cs h.2
+  | .or cs, h => by
+    simp only [Cond.wfN, Bool.and_eq_true] at h
+    simpa [firstBad] using wfL_firstBad O cs h.2
+  | .not c, h => by
+    simp only [Cond.wfN, Bool.and_eq_true] at h
+    simpa [firstBad] using wf_firstBad O true c h.2
+theorem wfL_firstBad (O : Oracle) : (cs : List Cond) → wfL O cs = true → firstBadL cs = none
+  | [], _ => rfl
+  | c :: cs, h => by
+    simp only [wfL, Bool.and_eq_true] at h
+    simp [firstBadL, wf_firstBad O false c h.1, wfL_firstBad O cs h.2]
+end
+
 end PB.Query
